@@ -30,6 +30,11 @@ impl Byte {
         external_data_readers: &mut ExternalDataReaders<'de>,
         len: usize,
     ) -> io::Result<Cow<'de, [u8]>> {
+        // An empty series has no block to take from.
+        if len == 0 {
+            return Ok(Cow::from(&[][..]));
+        }
+
         match self {
             Self::External { block_content_id } => {
                 let src = external_data_readers
